@@ -118,7 +118,7 @@ func New(fset *token.FileSet, info *types.Info, body *ast.BlockStmt) *Graph {
 				g.link(b, f, last, caseTag[last], false)
 			case last != nil && (conds[last] || isCase[last]):
 				b.Nodes = b.Nodes[:len(b.Nodes)-1]
-				g.split(b, last, t, f)
+				g.split(b, g.resolveBoolLocal(b, last), t, f)
 			default:
 				g.link(b, t, nil, nil, false)
 				g.link(b, f, nil, nil, false)
@@ -126,6 +126,45 @@ func New(fset *token.FileSet, info *types.Info, body *ast.BlockStmt) *Graph {
 		}
 	}
 	return g
+}
+
+// resolveBoolLocal replaces a condition that is just a local bool variable by its defining expression when
+// the definition is the node immediately preceding the condition in the same block (`if v := E; v {`,
+// `v := E` directly followed by `if v {`), so that edge facts about E are not lost by the indirection.
+func (g *Graph) resolveBoolLocal(b *Block, cond ast.Expr) ast.Expr {
+	neg := false
+	e := ast.Unparen(cond)
+	if u, ok := e.(*ast.UnaryExpr); ok && u.Op == token.NOT {
+		neg = true
+		e = ast.Unparen(u.X)
+	}
+	id, ok := e.(*ast.Ident)
+	if !ok || len(b.Nodes) == 0 {
+		return cond
+	}
+	obj := g.Info.Uses[id]
+	if obj == nil {
+		return cond
+	}
+	as, ok := b.Nodes[len(b.Nodes)-1].(*ast.AssignStmt)
+	if !ok || len(as.Lhs) != 1 || len(as.Rhs) != 1 {
+		return cond
+	}
+	lid, ok := as.Lhs[0].(*ast.Ident)
+	if !ok {
+		return cond
+	}
+	lobj := g.Info.Defs[lid]
+	if lobj == nil {
+		lobj = g.Info.Uses[lid]
+	}
+	if lobj != obj {
+		return cond
+	}
+	if neg {
+		return &ast.UnaryExpr{Op: token.NOT, X: &ast.ParenExpr{X: as.Rhs[0]}, OpPos: cond.Pos()}
+	}
+	return as.Rhs[0]
 }
 
 func (g *Graph) newBlock() *Block {
@@ -353,4 +392,31 @@ func (s *Solution) Witness(b *Block, bit uint64) []string {
 		out = append(out, s.G.Describe(path[i]))
 	}
 	return out
+}
+
+// InlineStraight replaces every block node that is a bare call statement for which resolve returns a
+// straight-line statement list (the body of a small helper) by those statements. Only rules whose event
+// predicates are insensitive to the identity of the receiver variable (they match fields) should use it.
+func (g *Graph) InlineStraight(resolve func(call *ast.CallExpr) []ast.Stmt) {
+	for _, b := range g.Blocks {
+		var out []ast.Node
+		changed := false
+		for _, n := range b.Nodes {
+			if es, ok := n.(*ast.ExprStmt); ok {
+				if call, ok := es.X.(*ast.CallExpr); ok {
+					if body := resolve(call); body != nil {
+						for _, st := range body {
+							out = append(out, st)
+						}
+						changed = true
+						continue
+					}
+				}
+			}
+			out = append(out, n)
+		}
+		if changed {
+			b.Nodes = out
+		}
+	}
 }
